@@ -6,6 +6,21 @@ HERE = os.path.dirname(os.path.dirname(os.path.abspath(__file__)))
 PROPS = [json.loads(l)['id'] for l in open(os.path.join(HERE, 'properties.jsonl'))]
 
 CHECKS = {
+ 'C04': dict(category='proof', design_ref='DESIGN.md section 4 (C04)',
+    text='The building blocks are under contract and discharged for all inputs: the per-pixel pack and unpack against PngSpec (the low '
+         'two bits of A,R,G,B carry each memory byte, the upper six bits of every channel are the label\'s, pixels beyond the data are '
+         'copied -- for every label image), and the code area: get_bytes_from_code returns exactly 0x3d00 bytes laid out as raw text or '
+         ':c: header + stream, chosen by len(compressed) < len(text), zero padded, and REFUSES (raises) whenever the chosen form does '
+         'not fit -- including texts of 64 KiB and more, which no header can describe -- never truncated, never grown; '
+         'get_code_from_bytes inverts both forms for every version byte (CR -> blank, trailing newline: the normalisation named in '
+         'the statement). The glue is read off the real source on every run and compared with the PICO-8 memory map: join order '
+         'gfx|map|gff|music|sfx|code|version, reader offsets 0x0000/0x2000/0x3000/0x3100/0x3200/0x4300/0x8000, slice -> section '
+         'of the same name, label source = existing destination else the bundled blank.',
+    note='Assumed: pypng write/read is the identity on RGBA8 rows and emits a valid PNG (exercised by an independent PNG decoder in the '
+         'bounded run: CRC, zlib, five filters). The end-to-end composition (whole files through the public writer/reader, .p8 -> '
+         '.p8.png -> .p8, fit boundary at 0x3d00/0x3d01, random label pixels) is a bounded native run and never counted as proved. '
+         'Regions are assumed to have their PICO-8 sizes.',
+    technique='contract-based deductive verification (pack/unpack in QF_UFBV, code area in LIA with arrays; pyvc VCs, z3) + layout obligations read from the real ast against the memory-map spec; bounded whole-file round trips'),
  'C06': dict(category='other', design_ref='DESIGN.md section 4 (C06)',
     text='Partial proof + exhaustive ground + bounded. Proved: the real loop body and epilogue of LuaEchoWriter.to_lines are executed '
          'symbolically for an arbitrary pending list and an arbitrary token of every class; each step either appends the token code or '
